@@ -129,6 +129,7 @@ mod raw {
 
             let mut stdout_ref = self.stdout.as_ref();
             let mut stderr_ref = self.stderr.as_ref();
+            let mut first_iteration = true;
 
             loop {
                 if let Some(size_limit) = size_limit {
@@ -141,6 +142,20 @@ mod raw {
                     // When no stream remains, we are done.
                     break;
                 }
+
+                // Honor the deadline even when the streams are always ready
+                // (e.g. a subprocess producing output faster than we drain
+                // it), in which case poll() never gets to time out.  The
+                // first iteration is exempt so that even a zero timeout
+                // performs one I/O step and picks up available data.
+                if !first_iteration {
+                    if let Some(deadline) = deadline {
+                        if Instant::now() >= deadline {
+                            return Err(io::Error::new(io::ErrorKind::TimedOut, "timeout"));
+                        }
+                    }
+                }
+                first_iteration = false;
 
                 let (in_ready, out_ready, err_ready) =
                     maybe_poll(self.stdin.as_ref(), stdout_ref, stderr_ref, deadline)?;
